@@ -3,6 +3,7 @@ package c14
 import (
 	"context"
 	"fmt"
+	"math"
 	"math/rand/v2"
 	"sort"
 	"sync/atomic"
@@ -70,6 +71,8 @@ func (o op) String() string {
 	return o.K
 }
 
+var extremeValues = []int{math.MaxInt, math.MinInt, math.MaxInt - 7, math.MinInt + 7, math.MaxInt/2 + 1, -(math.MaxInt/2 + 1), math.MaxInt32, math.MinInt32}
+
 var watermarks = [][2]int{{1, 2}, {2, 4}, {3, 3}, {2, 6}, {4, 9}, {1, 2}, {2, 4}, {0, 0}}
 var graces = []int64{0, 10000, 20000, 20000}
 var stepsMs = []int64{500, 1000, 3000, 5000, 9999, 10000, 10001, 12000, 19999, 20000, 20001, 30000}
@@ -109,8 +112,15 @@ func genOp(rng *rand.Rand) op {
 	case x < 38:
 		return op{K: "flush", V: rng.IntN(8)}
 	case x < 50:
+		if rng.IntN(8) == 0 {
+			// a pin-like tag with a value at the edge of int (totals wrap the same way in the model)
+			return op{K: "tag", P: rng.IntN(nPeers), Tag: "pin", V: extremeValues[rng.IntN(len(extremeValues))]}
+		}
 		return op{K: "tag", P: rng.IntN(nPeers), Tag: plainTags[rng.IntN(3)], V: rng.IntN(16) - 3}
 	case x < 54:
+		if rng.IntN(8) == 0 {
+			return op{K: "untag", P: rng.IntN(nPeers), Tag: "pin"}
+		}
 		return op{K: "untag", P: rng.IntN(nPeers), Tag: plainTags[rng.IntN(3)]}
 	case x < 60:
 		return op{K: "upsert", P: rng.IntN(nPeers), Tag: plainTags[rng.IntN(3)], V: rng.IntN(9) - 2}
